@@ -29,15 +29,39 @@ def header_get(headers: list[tuple[bytes, bytes]], name: bytes) -> list[bytes]:
     return [v for k, v in headers if k.lower() == n]
 
 
+import re as _re
+
+_FOLD = _re.compile(rb"(?:\r\n|\r|\n)[ \t]+")
+
+
+def unfold(v: bytes) -> bytes:
+    """Canonical field value: line folds (incl. degenerate bare-CR / bare-LF folds) become one SP, OWS trimmed."""
+    return _FOLD.sub(b" ", v).strip(b" \t")
+
+
 def parse_head(head: bytes) -> tuple[bytes, bytes, bytes, list[tuple[bytes, bytes]], list[str]]:
     """``head`` excludes the terminating empty line.  Strict: lines are separated by CRLF only."""
     problems: list[str] = []
     lines = head.split(b"\r\n")
-    for ln in lines:
-        if b"\r" in ln or b"\n" in ln:
-            raise WireError(f"bare CR or LF inside head line {ln[:60]!r}")
+    for i, ln in enumerate(lines):
         if b"\x00" in ln:
-            raise WireError("NUL in head")
+            if i == 0:
+                raise WireError("NUL in the request line")
+            problems.append("NUL in a header line")
+        if b"\r" in ln or b"\n" in ln:
+            # A bare CR or LF is tolerated only as a degenerate line fold inside a header VALUE: it must be
+            # followed by SP / HTAB (so even a recipient that ends lines at a bare CR/LF sees a continuation
+            # line, never a new header field or message).  Anywhere else it splits the message.
+            if i == 0:
+                raise WireError(f"bare CR or LF inside the request line {ln[:60]!r}")
+            for pos, c in enumerate(ln):
+                if c in (0x0D, 0x0A):
+                    nxt = ln[pos + 1 : pos + 2]
+                    if nxt not in (b" ", b"\t") or not (b":" in ln[:pos] or ln[:1] in (b" ", b"\t")):
+                        raise WireError(f"bare CR or LF inside head line {ln[:60]!r}")
+            if ln[-1:] in (b"\r", b"\n"):
+                raise WireError(f"head line ends in a bare CR or LF {ln[:60]!r}")
+            problems.append("bare-fold")
     rl = lines[0]
     parts = rl.split(b" ")
     if len(parts) != 3:
@@ -51,13 +75,12 @@ def parse_head(head: bytes) -> tuple[bytes, bytes, bytes, list[tuple[bytes, byte
         raise WireError(f"control/space character in request target {target[:60]!r}")
     if version != b"HTTP/1.1":
         raise WireError(f"version {version!r}")
-    headers: list[tuple[bytes, bytes]] = []
+    raw: list[list[bytes]] = []  # [name, raw value incl. folds]
     for ln in lines[1:]:
         if ln[:1] in (b" ", b"\t"):
-            if not headers:
+            if not raw:
                 raise WireError("continuation line before any header field")
-            k, v = headers[-1]
-            headers[-1] = (k, (v + b" " + ln.strip(b" \t")).strip(b" "))
+            raw[-1][1] += b"\r\n" + ln
             problems.append("obs-fold")
             continue
         if b":" not in ln:
@@ -67,7 +90,8 @@ def parse_head(head: bytes) -> tuple[bytes, bytes, bytes, list[tuple[bytes, byte
             raise WireError("empty header name")
         if any(c not in TCHAR for c in k):
             problems.append(f"header name is not a token: {k[:40]!r}")
-        headers.append((k, v.strip(b" \t")))
+        raw.append([k, v])
+    headers: list[tuple[bytes, bytes]] = [(k, unfold(v)) for k, v in raw]
     return method, target, version, headers, problems
 
 
